@@ -46,6 +46,9 @@ type Doc struct {
 	Lang     string
 	Syms     [][2]int
 	SymKinds []string
+	// ViaBuilder: the document goes through index.Builder (DocChecker) rather than straight
+	// into a ShardBuilder: 1..2 byte contents are skipped as too small.
+	ViaBuilder bool
 }
 
 type Corpus struct {
@@ -55,9 +58,13 @@ type Corpus struct {
 }
 
 const notIndexedBinary = "NOT-INDEXED: contains binary content"
+const notIndexedSmall = "NOT-INDEXED: contains too few trigrams"
 
 // Effective content: what the index stores (documents with a NUL byte are skipped).
 func (d *Doc) Effective() string {
+	if d.ViaBuilder && len(d.Content) > 0 && len(d.Content) < 3 {
+		return notIndexedSmall
+	}
 	if strings.IndexByte(d.Content, 0) >= 0 {
 		return notIndexedBinary
 	}
@@ -65,7 +72,7 @@ func (d *Doc) Effective() string {
 }
 
 func (d *Doc) EffectiveSyms() [][2]int {
-	if strings.IndexByte(d.Content, 0) >= 0 {
+	if d.Effective() != d.Content {
 		return nil
 	}
 	return d.Syms
@@ -76,7 +83,7 @@ func (d *Doc) EffectiveSyms() [][2]int {
 var Alphabet = []rune{'a', 'b', 'c', 'A', 'B', '_', '1', ' ', '\n', '.', '(', 'é', 'ß', '中', '😀'}
 
 // ExtraRunes can occur in names, markers and patterns.
-var ExtraRunes = []rune("NOT-INDEXED: contains binary content/dxyzZmtgoMDrepos0123456789hHEADvlkfuw-CcpbBi\r\tTXYKkSsIjJqQWFGLOPRUV")
+var ExtraRunes = []rune("NOT-INDEXED: contains binary content too few trigrams/dxyzZmtgoMDrepos0123456789hHEADvlkfuw-CcpbBi\r\tTXYKkSsIjJqQWFGLOPRUV")
 
 // FoldEvent lists the case-fold orbits of all runes the generators use.
 func FoldEvent() M {
@@ -156,7 +163,7 @@ func (c *Corpus) Event() M {
 
 // ---------------------------------------------------------------- materialisation
 
-func (c *Corpus) zoektRepo(ri int) *zoekt.Repository {
+func (c *Corpus) ZoektRepo(ri int) *zoekt.Repository {
 	r := c.Repos[ri]
 	zr := &zoekt.Repository{
 		Name: r.Name, ID: r.ID, TenantID: r.Tenant, Rank: r.Rank,
@@ -226,7 +233,7 @@ func (c *Corpus) IndexDoc(d *Doc) index.Document {
 // WriteSimple writes one simple shard holding repo ri with its documents (in corpus order,
 // or in the given order of document indices).
 func (c *Corpus) WriteSimple(path string, ri int, order []int) error {
-	b, err := index.NewShardBuilder(c.zoektRepo(ri))
+	b, err := index.NewShardBuilder(c.ZoektRepo(ri))
 	if err != nil {
 		return err
 	}
